@@ -9,7 +9,7 @@ PROP = 'C03'
 MODULE = 'WaveletsVerif.Properties.C03'
 THEOREMS = ['WV.C03.colfilter1_eq_ref', 'WV.C03.coldfilt1_eq_ref', 'WV.C03.interleave2_get', 'WV.C03.coldfilt1_raises_iff',
             'WV.C03T.reflect_eq_symIdx', 'WV.C03T.symm_pad_1d_eq', 'WV.C03T.symmPad_eq_gather',
-            'WV.C03P.alongH_alongW_comm', 'WV.C03P.GL_colfilter', 'WV.C03P.GL_coldfilt', 'WV.C03P.fwdJ1_eq_ref', 'WV.C03P.fwdJ2_eq_ref', 'WV.C03P.dtcwt_forward_eq_ref', 'WV.C01Z.extendEven_gen', 'WV.C19Z.prep_mirrors_gen']
+            'WV.C03P.alongH_alongW_comm', 'WV.C03P.GL_colfilter', 'WV.C03P.GL_coldfilt', 'WV.C03P.fwdJ1_eq_ref', 'WV.C03P.fwdJ2_eq_ref', 'WV.C03P.dtcwt_forward_eq_ref', 'WV.C01Z.extendEven_gen', 'WV.C19Z.prep_mirrors_gen', 'WV.C10Z.dtcwt_glue_gen']
 OPS = ['colfilter', 'rowfilter', 'coldfilt', 'rowdfilt', 'q2c', 'fwd_j1', 'fwd_j2plus', 'DTCWTForward']
 
 
@@ -68,10 +68,46 @@ def oracle_fwd_converted(ck, b, s, J, x):
     return None
 
 
+def oracle_fwd_special(ck, b, s, J, x, val, pos):
+    """an image with ONE non-finite pixel: wherever the reference transform of that image is finite, so is the library's, with the same
+    value (the six orientations of a quad come from three sub-images with different footprints: a non-finite pixel reaches each through
+    its own filters only)"""
+    import torch
+    from pytorch_wavelets import DTCWTForward
+    x = x.copy(); x[(0, 0) + pos] = val
+    desc = 'DTCWTForward(%s/%s, J=%d) on %s with %r at pixel %s' % (b, s, J, tuple(x.shape), val, pos)
+    replay = {'oracle': 'fwd-special', 'b': b, 's': s, 'J': J, 'x': arr_json(np.nan_to_num(x, nan=0.0, posinf=0.0, neginf=0.0)), 'val': repr(val), 'pos': list(pos)}
+    mod = DTCWTForward(biort=b, qshift=s, J=J).double()
+    with torch.no_grad():
+        yl, yh = mod(torch.tensor(x, dtype=torch.float64))
+    with np.errstate(all='ignore'):
+        low, highs = OD.forward(x[0, 0], b, s, J)
+    got = [yl[0, 0].numpy()] + [h[0, 0].numpy() for h in yh]
+    want = [low] + [OD.to_canon(h) for h in highs]
+    nfin = 0
+    for k, (g_, w_) in enumerate(zip(got, want)):
+        if g_.shape != w_.shape:
+            ck.fail(desc + ': output %d has shape %s, reference %s' % (k, g_.shape, w_.shape), replay); return 'shape'
+        m = np.isfinite(w_)
+        nfin += int((~m).sum())
+        sc = max(1.0, float(np.max(np.abs(w_[m]))) if m.any() else 1.0)
+        bad = m & ~(np.isfinite(g_) & (np.abs(np.where(np.isfinite(g_), g_, 0.0) - np.where(m, w_, 0.0)) <= 1e-5 * sc))
+        if bad.any():
+            idx = tuple(int(v[0]) for v in np.nonzero(bad))
+            ck.fail(desc + ': output %d at %s is %r where the reference transform of the same image is finite (%r) [%d such coefficients]' % (
+                k, idx, float(g_[idx]), float(w_[idx]), int(bad.sum())), replay); return 'leak'
+    ck.oracle_ok(('special', b, s, J, repr(val)), group='fwd-special', sample={'what': desc, 'non_finite_in_reference': nfin})
+    return None
+
+
 def oracle(ck, extended):
     rng = ck.rng
     q = ck.tier == 'quick'
     pairs = [(b, s) for b in OD.BIORTS for s in OD.QSHIFTS]
+    for (b, s) in (rng.sample(pairs, 5) if q else pairs):
+        for val in (float('nan'), float('inf')):
+            H = rng.randint(12, 24) * 2; W = rng.randint(12, 24) * 2
+            rt.guard(ck, oracle_fwd_special, ck, b, s, rng.randint(1, 2), gen.float_tensor(ck.nprng, (1, 1, H, W)), val, (rng.randint(5, H - 6), rng.randint(5, W - 6)))
     for (b, s) in (rng.sample(pairs, 8) if q else pairs * 3):
         bt, qt = OD.lib_tables(b, s)
         J = rng.randint(1, 3 if q else 5)
@@ -165,6 +201,8 @@ def replay(ck, path):
         return 1
     if f.get('oracle') == 'fwd-converted':
         oracle_fwd_converted(ck, f['b'], f['s'], f['J'], arr_from(f['x']))
+    elif f.get('oracle') == 'fwd-special':
+        oracle_fwd_special(ck, f['b'], f['s'], f['J'], arr_from(f['x']), float(f['val']), tuple(f['pos']))
     else:
         bt = tuple(arr_from(a) for a in f['bt']); qt = tuple(arr_from(a) for a in f['qt'])
         oracle_fwd(ck, bt, qt, bt, qt, f['J'], arr_from(f['x']), f['named'])
